@@ -527,11 +527,12 @@ local function broken(what, n, ...)
   error("COBROKEN " .. what .. " (padding " .. n .. "): " .. table.concat(parts, ", "), 0)
 end
 local function islimit(m) return type(m) == "string" and string.find(m, "overflow", 1, true) ~= nil end
--- 1: a yield whose values do not fit into the resumer: the resumer gets the overflow, the coroutine stays suspended,
--- the next resume delivers the values, and the body goes on with its variables intact
+-- 1: a yield whose values do not fit into the resumer fails like every hand-over that does not fit: the coroutine is
+-- dead and the resumer has (false, overflow) or, if not even that fits, the overflow as an error. A yield that fits
+-- suspends the coroutine, later resumes deliver their values to it, and its variables are intact.
 local function edge_yield()
   return edge(function(n)
-    local started, entered, bump, got = false, false, nil, {}
+    local started, entered, bump, got, rok, rmsg = false, false, nil, {}, nil, nil
     local co = coroutine.create(function()
       entered = true
       local v = 0
@@ -546,19 +547,22 @@ local function edge_yield()
     local function probe(...)
       local a, b, c = 1, 2, 3
       started = true
-      coroutine.resume(co)
+      rok, rmsg = coroutine.resume(co)
     end
     local ok, msg = pcall(function() probe(unpack(NOPAD, 1, n)) end)
     if not started then return false end
     if not ok and not islimit(msg) then broken("resume at the edge failed with something else than an overflow", n, msg) end
     if not entered then return true end -- the resume itself did not fit
     local st = coroutine.status(co)
-    if st == "dead" and not ok then return true end -- (set-up overflow kills the coroutine: f0b215a)
-    if st ~= "suspended" then broken("status after the first resume", n, st, ok, msg) end
-    if not ok then
-      local r = {coroutine.resume(co)}
-      if not (r[1] == true and r[2] == "v1" and r[3] == "v2" and r[4] == "v3") then broken("the retried resume did not deliver the yielded values", n, unpack(r, 1, 5)) end
+    if not ok or rok == false then
+      -- the yield (or the set-up of the coroutine) met the limit: a failed hand-over ends the coroutine
+      if rok == false and not islimit(rmsg) then broken("resume returned false with", n, rmsg) end
+      if st ~= "dead" then broken("after a hand-over that did not fit the coroutine is", n, st, ok, msg, rok, rmsg) end
+      local r = {coroutine.resume(co, "x")}
+      if r[1] ~= false or got[1] ~= nil then broken("a coroutine whose yield failed was resumed", n, r[1], r[2], got[1]) end
+      return true
     end
+    if st ~= "suspended" or rmsg ~= "v1" then broken("after the first resume", n, st, rok, rmsg) end
     local r = {coroutine.resume(co, "r1", "r2")}
     if not (r[1] == true and r[2] == "v4" and got[1] == "r1/r2/11") then broken("second resume", n, r[1], r[2], got[1]) end
     r = {coroutine.resume(co, "s1")}
